@@ -15,6 +15,7 @@ import (
 )
 
 //vp:all stub (*github.com/bolkedebruin/gokrb5/v8/config.Config).GetKDCs = vpGetKDCs
+//vp:all stub (*github.com/bolkedebruin/gokrb5/v8/config.Config).ResolveRealm = vpResolveRealm
 //vp:all stub net.Dial = vpNetDial
 //vp:all stub github.com/jcmturner/gofork/encoding/asn1.Unmarshal = vpASN1Unmarshal
 //vp:all stub github.com/jcmturner/gofork/encoding/asn1.Marshal = vpASN1Marshal
@@ -89,13 +90,14 @@ func vpResetK() {
 	vpConns, vpDialLog, vpKdcCalls, vpRealmSeen = nil, nil, 0, ""
 	vpMarshaled, vpMarshalN = nil, 0
 	vpAllDialsFail = false
+	vpRealmCheck, vpAlwaysReply = false, false
 }
 
 // GetKDCs contract (gokrb5 randServOrder): error for an unknown realm, else (n, map{1..n -> host}).
 func vpGetKDCs(c *krbconfig.Config, realm string, tcp bool) (int, map[int]string, error) {
 	vpKdcCalls++
 	vpRealmSeen = realm
-	if vpUnknown {
+	if vpUnknown || (vpRealmCheck && !vpRealmConfigured(realm)) {
 		return 0, map[int]string{}, errors.New("vp: no KDCs defined for realm")
 	}
 	n := vpUDPn
@@ -111,15 +113,29 @@ func vpGetKDCs(c *krbconfig.Config, realm string, tcp bool) (int, map[int]string
 	return n, m, nil
 }
 
+// ResolveRealm contract (gokrb5): the realm mapped to a DNS domain by [domain_realm], else "".
+// No mapping is configured here.
+func vpResolveRealm(c *krbconfig.Config, domain string) string { return "" }
+
+// vpRealmKnown: the configured realms. GetKDCs("") means the default realm (library behaviour).
+var vpRealmCheck bool
+var vpAlwaysReply bool
+
+func vpRealmConfigured(realm string) bool {
+	return realm == "" || realm == "DEFAULT.REALM" || realm == "BRANCH.TEST"
+}
+
 func vpNetDial(network, address string) (net.Conn, error) {
 	vpDialLog = append(vpDialLog, network+"!"+address)
 	k := vpItoa(len(vpDialLog))
-	if address == "" || vpAllDialsFail || vpBool("dial-fails-"+k) {
+	if address == "" || vpAllDialsFail || (!vpAlwaysReply && vpBool("dial-fails-"+k)) {
 		return nil, errors.New("vp: connection refused")
 	}
 	c := &vpKConn{proto: network, host: address}
-	c.werr = vpBool("write-fails-" + k)
-	c.rerr = vpBool("silent-" + k)
+	if !vpAlwaysReply {
+		c.werr = vpBool("write-fails-" + k)
+		c.rerr = vpBool("silent-" + k)
+	}
 	if !c.rerr {
 		c.reply = vpBytesN("reply-"+k, 3)
 	}
@@ -354,5 +370,40 @@ func VP_C20_relay() {
 		vpReach("noreply")
 		vpAssert(w.status == 503, "no-reply-from-any-kdc-is-503")
 		vpAssert(vpMarshalN == 0, "nothing-wrapped-without-a-reply")
+	}
+}
+
+//vp:property C20
+//vp:bounds target realm named by the client: absent, the default realm, another configured realm, the same names in lower/mixed case, an unknown realm (6 spellings); one TCP KDC per configured realm, always replying
+//vp:assume gokrb5: GetKDCs("") resolves the default realm; GetKDCs fails for realms that are not configured; ResolveRealm returns "" without a [domain_realm] entry
+//vp:reach served refused
+func VP_C20_realm() {
+	vpResetK()
+	vpRealmCheck, vpAlwaysReply = true, true
+	vpUnknown = false
+	vpUDPn, vpTCPn = 0, 1
+	realm := []string{"", "DEFAULT.REALM", "BRANCH.TEST", "branch.test", "Default.Realm", "nowhere.test"}[vpIntRange("realm", 0, 5)]
+	msg := []byte{0, 0, 0, 1, 0x6a}
+	vpDERok, vpRest = true, 0
+	vpMsg = KdcProxyMsg{Message: msg, Realm: realm}
+	r := &http.Request{Method: "POST", ContentLength: 4, Body: &vpBody{data: make([]byte, 4)}}
+	w := &vpRW{hdr: http.Header{}}
+	vpProxy().Handler(w, r)
+	vpRunTasks()
+	vpObserve("status", uint64(w.status))
+	known := realm == "" || realm == "DEFAULT.REALM" || realm == "BRANCH.TEST"
+	if known {
+		vpReach("served")
+		vpAssert(w.status == 200 && len(vpDialLog) == 1, "configured-realm-is-served-by-its-kdc")
+		if realm == "" {
+			vpAssert(vpRealmSeen == "DEFAULT.REALM" || vpRealmSeen == "", "no-realm-means-the-default-realm")
+		} else {
+			vpAssert(vpRealmSeen == realm, "kdc-looked-up-for-exactly-the-named-realm")
+		}
+	} else {
+		vpReach("refused")
+		// a realm that is not configured (case matters: realm names are case sensitive) reaches no KDC
+		vpAssert(len(vpDialLog) == 0, "unknown-realm-contacts-no-kdc")
+		vpAssert(w.status == 503, "unknown-realm-is-answered-503")
 	}
 }
